@@ -1,14 +1,416 @@
-//! C14 — stub, to be implemented.
-#![allow(dead_code)]
+//! C14 — sozu respects every HTTP/2 peer limit and keeps transfers moving.
+//!
+//! The H2 peers (client over TLS, h2c backend) are byte-accounting peers: they keep their own ledger
+//! of the windows / limits they granted sozu (actors/h2.rs). This module generates the peer SETTINGS
+//! and WINDOW_UPDATE schedules, and judges ledgers, body integrity and liveness.
+use std::collections::BTreeMap;
+
 use serde_json::Value;
+
+use crate::actors::h1::*;
+use crate::actors::h2::*;
+use crate::actors::h2codec::{HpackStyle, Repr};
+use crate::actors::tls::TlsPlan;
+use crate::actors::Pace;
 use crate::framework::*;
+use crate::muxscn::*;
+use crate::netsim::{self, Knobs};
+use crate::prng::Prng;
+use crate::scenario::{boundary_size, random_chunks, BackendMode};
+use crate::world::{MS, SEC};
 
 pub struct C14;
 
+#[derive(Clone, Copy, PartialEq)]
+pub enum Focus {
+    /// C01: default-ish limits, emphasis on sizes, framings, pacing
+    Bodies,
+    /// C14: emphasis on peer SETTINGS and WINDOW_UPDATE schedules
+    Limits,
+}
+
+fn gen_wu(rng: &mut Prng, body_hint: usize, chatty_ok: bool) -> WuPolicy {
+    // keep the number of WINDOW_UPDATE frames per body moderate: sozu documents a WINDOW_UPDATE flood
+    // detector (GOAWAY ENHANCE_YOUR_CALM). Modes that answer every received DATA frame (eager, drip,
+    // time-based) are only used when the sender on the other side of sozu writes in large quanta.
+    let min_step = ((body_hint / 60).max(1024)) as u32;
+    let mode = |rng: &mut Prng| match rng.below(if chatty_ok { 6 } else { 3 }) {
+        0 => WuMode::Threshold(min_step + rng.below(30000) as u32),
+        1 => WuMode::WhenExhausted,
+        2 => WuMode::Threshold(min_step),
+        3 => WuMode::Drip(min_step + rng.below(8000) as u32),
+        4 => WuMode::Late(rng.below(3) * MS + 1),
+        _ => WuMode::Eager,
+    };
+    // connection-level updates are rate-limited by sozu (documented: h2_max_window_update_stream0_per_window
+    // = 100 per flood window): keep them to a few dozen per run
+    let conn_step = ((body_hint / 30).clamp(1024, 60000)) as u32;
+    let conn = if rng.below(2) == 0 { WuMode::WhenExhausted } else { WuMode::Threshold(conn_step) };
+    WuPolicy { stream: mode(rng), conn, fallback_ns: 20 * MS + rng.below(30 * MS) }
+}
+
+fn gen_settings(rng: &mut Prng, focus: Focus, server_role: bool) -> SettingsSpec {
+    let mut s = SettingsSpec::default();
+    if focus == Focus::Bodies && rng.below(3) != 0 { if !server_role { s.enable_push = Some(0); } return s; }
+    if rng.below(2) == 0 { s.initial_window_size = Some(*rng.pick(&[1024u32, 4096, 16383, 16384, 16385, 65535, 65536, 100_000, 1_000_000, 0x7fff_ffff])); }
+    if rng.below(2) == 0 { s.max_frame_size = Some(*rng.pick(&[16384u32, 16385, 20000, 65536, 1 << 20, (1 << 24) - 1])); }
+    if server_role && rng.below(2) == 0 { s.max_concurrent_streams = Some(*rng.pick(&[1u32, 2, 3, 100])); }
+    if rng.below(2) == 0 { s.header_table_size = Some(*rng.pick(&[0u32, 64, 4096, 65536])); }
+    if !server_role { s.enable_push = Some(0); }
+    s
+}
+
+fn gen_conn(rng: &mut Prng, focus: Focus, server_role: bool, body_hint: usize, chatty_ok: bool) -> H2ConnPlan {
+    let mut c = H2ConnPlan::default();
+    c.settings = gen_settings(rng, focus, server_role);
+    c.wu = if focus == Focus::Limits || rng.below(2) == 0 || !chatty_ok { gen_wu(rng, body_hint, chatty_ok) } else { WuPolicy { stream: WuMode::Eager, conn: WuMode::Threshold(((body_hint / 30).clamp(1024, 60000)) as u32), fallback_ns: 30 * MS } };
+    if focus == Focus::Limits && rng.below(3) == 0 {
+        // mid-connection change, possibly shrinking windows below in-flight data
+        let mut s = SettingsSpec::default();
+        s.initial_window_size = Some(*rng.pick(&[1024u32, 8192, 16384, 65535, 200_000]));
+        if rng.below(2) == 0 { s.max_frame_size = Some(*rng.pick(&[16384u32, 32768, 1 << 20])); }
+        if rng.below(3) == 0 { s.header_table_size = Some(*rng.pick(&[0u32, 4096])); }
+        let when = match rng.below(3) { 0 => When::RecvData(rng.below(body_hint as u64 + 1)), 1 => When::RecvFrames(2 + rng.below(10)), _ => When::StreamsOpened(1 + rng.below(3) as u32) };
+        c.changes.push(SettingsChange { when, settings: s });
+    }
+    if rng.below(4) == 0 { c.conn_window_bonus = *rng.pick(&[1000u32, 65535, 1_000_000]); }
+    c.hpack = HpackStyle { repr: *rng.pick(&[Repr::NoIndex, Repr::NeverIndex, Repr::IncrIndex]), incr_every: rng.below(4) as u32, static_names: rng.below(2) == 0, static_full: rng.below(2) == 0, huffman: rng.below(2) == 0, dynamic_refs: rng.below(2) == 0, table_size: None };
+    c.batch = 1 + rng.below(3) as u32;
+    c
+}
+
+fn gen_body_plan(rng: &mut Prng, len: usize, allow_trailers: bool) -> BodyPlan {
+    let mut b = if len == 0 && rng.below(2) == 0 { BodyPlan::none() } else { BodyPlan::of(len) };
+    if len > 0 {
+        if rng.below(2) == 0 { b.frames = random_chunks(rng, len.min(100_000)); b.frames.truncate(40); }
+        if rng.below(3) == 0 { b.pad = vec![None, Some(rng.below(200) as u8), Some(0)]; }
+        b.content_length = rng.below(3) != 0;
+        b.end = match rng.below(8) { 0 => EndMode::EmptyData, 1 if allow_trailers => EndMode::Trailers(vec![("x-trailer".into(), "v".into())]), _ => EndMode::Auto };
+    }
+    b
+}
+
+/// Seeded mixed-protocol plan. `pair`: 0 = h2 client / h1 backend, 1 = h1 client / h2 backend, 2 = h2 / h2, 3 = h1 / h1.
+pub fn gen_mux(seed: u64, tier: Tier, focus: Focus, label: &str) -> MuxPlan {
+    let mut rng = Prng::derive(seed, &format!("{label}/mux"));
+    let faulty = rng.below(3) == 0;
+    let mut knobs = Knobs::default();
+    knobs.buffer_size = *rng.pick(&[16393u64, 16393, 16400, 20000, 32768, 65536]);
+    // pairs: 0 = h2 client / h1 backend (the common deployment), 1 = h1 client / h2c backend, 2 = h2 / h2c
+    let pair = match rng.below(10) { 0..=5 => 0, 6 | 7 => 1, _ => 2 };
+    let max_body = match (tier, focus) { (Tier::Quick, _) => 150_000, (Tier::Thorough, _) => 1_500_000 };
+    let http_front = "10.0.0.1:80".parse().unwrap();
+    let https_front = "10.0.0.1:443".parse().unwrap();
+    let h2_client = pair == 0 || pair == 2;
+    let h2_backend = pair == 1 || pair == 2;
+    let nstreams = 1 + rng.below(5) as usize;
+    let mut h1_resp = BTreeMap::new();
+    let mut h2_resp = BTreeMap::new();
+    let mut h1_reqs = Vec::new();
+    let mut h2_ops = Vec::new();
+    let mut hint = 0usize;
+    for i in 0..nstreams {
+        let id = 1 + i as u64;
+        let req_len = if rng.below(2) == 0 { 0 } else { boundary_size(&mut rng, knobs.buffer_size as usize, max_body) };
+        let resp_len = boundary_size(&mut rng, knobs.buffer_size as usize, max_body);
+        hint += req_len + resp_len + 500;
+        if h2_client {
+            let mut r = if req_len > 0 { H2ReqSpec::post(id, "c0.test", &format!("/r/{id}"), req_len) } else { H2ReqSpec::get(id, "c0.test", &format!("/r/{id}")) };
+            // trailers toward an H1 backend and padded HEADERS + CONTINUATION are separate (rare) triggers
+            let allow_tr = if h2_backend { rng.below(4) == 0 } else { rng.below(12) == 0 };
+            r.body = gen_body_plan(&mut rng, req_len, allow_tr);
+            if rng.below(4) == 0 { r.cont_split = vec![1 + rng.below(30) as usize, rng.below(20) as usize]; }
+            if rng.below(6) == 0 && r.cont_split.is_empty() { r.headers_pad = Some(rng.below(100) as u8); }
+            if rng.below(5) == 0 { r.headers.push(("x-long".into(), "v".repeat(rng.below(3000) as usize))); }
+            r.delay_ns = rng.below(2) * rng.below(3 * MS);
+            h2_ops.push(ClientOp::Req(r));
+        } else {
+            let mut r = ReqSpec::get(id, "c0.test", &format!("/r/{id}"));
+            if req_len > 0 { r.method = "POST".into(); r.body = if rng.below(2) == 0 { BodySpec::Cl(req_len) } else { BodySpec::Chunked(random_chunks(&mut rng, req_len)) }; } else { r.headers.push(("Content-Length".into(), "0".into())); }
+            h1_reqs.push(r);
+        }
+        if h2_backend {
+            let mut resp = H2RespSpec::ok(resp_len);
+            resp.body = gen_body_plan(&mut rng, resp_len, false);
+            if resp.body.len == 0 && !resp.body.content_length { resp.body = BodyPlan::of(0); }
+            // a complete answer before the request body has been read is an (uncommon) early response; keep it to body-less requests
+            resp.respond_on = if req_len == 0 && rng.below(2) == 0 { RespondOn::Headers } else { RespondOn::EndStream };
+            if rng.below(4) == 0 { resp.cont_split = vec![1 + rng.below(20) as usize]; }
+            resp.delay_ns = rng.below(2) * rng.below(3 * MS);
+            h2_resp.insert(id, resp);
+        } else {
+            let body = if rng.below(2) == 0 { BodySpec::Cl(resp_len) } else { BodySpec::Chunked(random_chunks(&mut rng, resp_len)) };
+            h1_resp.insert(id, RespSpec::ok(body));
+        }
+    }
+    let pace_c = Pace::random_budget(&mut rng, hint, 300_000_000);
+    let pace_b = Pace::random_budget(&mut rng, hint, 300_000_000);
+    let big = |q: &crate::actors::Quantum| match q { crate::actors::Quantum::All => true, crate::actors::Quantum::Fixed(n) => *n >= 2048, crate::actors::Quantum::Uniform(a, _) => *a >= 1000 };
+    // the peer of a slow writer sees many small DATA frames
+    let (client_chatty_ok, backend_chatty_ok) = (big(&pace_b.wq), big(&pace_c.wq));
+    let backend = if h2_backend {
+        let mut b = H2BackendPlan::simple("b0", "10.1.0.1:8000".parse().unwrap(), h2_resp);
+        b.pace = pace_b;
+        b.conn = gen_conn(&mut rng, focus, true, hint, backend_chatty_ok);
+        MuxBackend::H2(b)
+    } else {
+        MuxBackend::H1(BackendPlan { name: "b0".into(), addr: "10.1.0.1:8000".parse().unwrap(), pace: pace_b, responses: h1_resp, default: RespSpec::ok(BodySpec::Cl(3)), close_on_accept: vec![], listen_from_ns: 0, listen_until_ns: 0 })
+    };
+    let mut h1_clients = Vec::new();
+    let mut h2_clients = Vec::new();
+    if h2_client {
+        let mut c = H2ClientPlan::simple("h2c0", "192.0.2.7:40001".parse().unwrap(), https_front, Some(TlsPlan::h2("c0.test")), vec![]);
+        c.script = h2_ops;
+        c.pace = pace_c;
+        c.conn = gen_conn(&mut rng, focus, false, hint, client_chatty_ok);
+        c.max_concurrent = *rng.pick(&[1u32, 2, 8, 100]);
+        c.give_up_ns = 40 * SEC;
+        c.start_ns = rng.below(3) * MS;
+        h2_clients.push(c);
+    } else {
+        h1_clients.push(ClientPlan { name: "cl0".into(), src: "192.0.2.7:40001".parse().unwrap(), dst: http_front, start_ns: rng.below(3) * MS, pace: pace_c, pipeline: false, requests: h1_reqs, abort: None, sndbuf: None, think_ns: 0, linger_ns: 0, give_up_ns: 40 * SEC, wait_board: None });
+    }
+    MuxPlan {
+        seed,
+        family: format!("{}_{}{}", if h2_client { "h2" } else { "h1" }, if h2_backend { "h2" } else { "h1" }, if faulty { "+buggify" } else { "" }),
+        knobs,
+        sched: netsim::default_sched(&mut rng, faulty),
+        http_front,
+        https_front,
+        clusters: vec![MuxCluster { id: "c0".into(), host: "c0.test".into(), backend, mode: BackendMode::Listen { delay_ns: rng.below(2) * rng.below(5 * MS) } }],
+        h1_clients,
+        h2_clients,
+        sndbufs: if rng.below(3) == 0 { Some(vec![0, 4608, 9216, 32768]) } else { None },
+        settle_ns: 0,
+    }
+}
+
+/// plan-level trigger of the recorded H2 defects for request `id` (computed from the plan only)
+pub fn trigger(p: &MuxPlan, id: u64) -> &'static str {
+    // every defect recorded for the h2c-backend path is grouped under one trigger
+    if p.clusters[0].backend.is_h2() { return "h2_backend"; }
+    let mut sibling: Option<&'static str> = None;
+    for c in &p.h2_clients {
+        for r in c.requests() {
+            let t = if r.headers_pad.map_or(false, |n| n > 0) && !r.cont_split.is_empty() { Some("padded_headers_with_continuation") }
+                else if matches!(r.body.end, EndMode::Trailers(_)) { Some("h2_request_trailers_to_h1_backend") } else { None };
+            if let Some(t) = t {
+                if r.id == id { return t; }
+                // a defect hit by one stream takes the shared backend/frontend connection with it
+                sibling = Some(if t == "padded_headers_with_continuation" { "sibling_of_padded_headers_with_continuation" } else { "sibling_of_h2_request_trailers_to_h1_backend" });
+            }
+        }
+    }
+    sibling.unwrap_or("none")
+}
+
+pub fn plan_trigger(p: &MuxPlan) -> &'static str {
+    if p.clusters[0].backend.is_h2() { return "h2_backend"; }
+    for c in &p.h2_clients { for r in c.requests() { let t = trigger(p, r.id); if t != "none" && !t.starts_with("sibling") { return t; } } }
+    "none"
+}
+
+/// Body / completion oracle shared with C01 (all four protocol pairs).
+pub fn body_oracle(p: &MuxPlan, o: &MuxOutcome) -> Vec<Violation> {
+    let mut v = Vec::new();
+    if let Some(pn) = &o.panicked { v.push(Violation::new("panic", format!("worker|{}", plan_trigger(p)), pn.clone())); }
+    if let Some(a) = &o.aborted { v.push(Violation::new("no_exit", format!("{a}|{}", plan_trigger(p)), format!("run aborted: {a}"))); }
+    let mut judge = |id: u64, req_len: u64, resp_len: u64, resp_status: u16, obs: ClientObs, who: &str, v: &mut Vec<Violation>| {
+        let trig = trigger(p, id);
+        let k = |s: &str| format!("{s}|{trig}");
+        let b = backend_obs(&o.backends[0], id);
+        if !obs.answered {
+            v.push(Violation::new("no_answer", k("missing"), format!("{who} request #{id}: no response (aborted={:?})", obs.aborted)));
+        } else if obs.sim_id != Some(id) {
+            v.push(Violation::new("wrong_answer", k(&format!("status={}", obs.status.unwrap_or(0))), format!("{who} request #{id}: got status {:?} sim_id={:?} body={:?}", obs.status, obs.sim_id, String::from_utf8_lossy(&obs.body_head[..obs.body_head.len().min(80)]))));
+        } else {
+            if obs.status != Some(resp_status) { v.push(Violation::new("wrong_answer", k("status_changed"), format!("request #{id}: status {:?} != {resp_status}", obs.status))); }
+            if let Some(off) = obs.first_bad { v.push(Violation::new("body_mismatch", k("corrupted"), format!("{who} request #{id}: response body differs at offset {off} (received {})", obs.body_len))); }
+            else if obs.body_len != resp_len { v.push(Violation::new("body_mismatch", k(if obs.body_len < resp_len { "truncated" } else { "duplicated" }), format!("{who} request #{id}: response body {} bytes, backend sent {resp_len}; aborted={:?}", obs.body_len, obs.aborted))); }
+            if !obs.complete { v.push(Violation::new("missing_terminator", k("response"), format!("request #{id}: response not terminated (aborted={:?})", obs.aborted))); }
+            if obs.t_sent > 0 && obs.t_end > obs.t_sent + 10 * SEC { v.push(Violation::new("transfer_starved", k("response"), format!("request #{id}: completed {} ms after the request was sent", (obs.t_end - obs.t_sent) / MS))); }
+        }
+        if b.seen > 1 { v.push(Violation::new("body_mismatch", k("request_replayed"), format!("request #{id} reached the backend {} times", b.seen))); }
+        if b.seen >= 1 {
+            if !b.body_ok { v.push(Violation::new("body_mismatch", k("request_corrupted"), format!("request #{id}: request body differs at the backend"))); }
+            else if b.body_len != req_len { v.push(Violation::new("body_mismatch", k(if b.body_len < req_len { "request_truncated" } else { "request_duplicated" }), format!("request #{id}: backend got {} body bytes, client sent {req_len}", b.body_len))); }
+            if !b.complete { v.push(Violation::new("missing_terminator", k("request"), format!("request #{id}: request not terminated at the backend"))); }
+        } else if obs.answered && obs.sim_id == Some(id) {
+            v.push(Violation::new("wrong_answer", k("not_forwarded"), format!("request #{id} answered but never seen by the backend")));
+        }
+    };
+    let resp_of = |id: u64| -> (u64, u16) {
+        match &p.clusters[0].backend {
+            MuxBackend::H1(b) => b.responses.get(&id).map_or((3, 200), |r| (r.body.len() as u64, r.status)),
+            MuxBackend::H2(b) => b.responses.get(&id).map_or((3, 200), |r| (r.body.len as u64, r.status)),
+        }
+    };
+    for (ci, c) in p.h1_clients.iter().enumerate() {
+        for (ri, r) in c.requests.iter().enumerate() {
+            let (rl, st) = resp_of(r.id);
+            judge(r.id, r.body.len() as u64, rl, st, h1_client_obs(&o.h1_clients[ci], ri, r.id), &c.name, &mut v);
+        }
+        if let Some(e) = &o.h1_clients[ci].rec.parse_error { v.push(Violation::new("malformed_response", format!("client_parse|{}", plan_trigger(p)), format!("client {}: {e}", c.name))); }
+    }
+    for (ci, c) in p.h2_clients.iter().enumerate() {
+        let rec = &o.h2_clients[ci];
+        if let Some(e) = rec.connect_err { v.push(Violation::new("no_answer", "connect_failed", format!("h2 client could not connect: errno {e}"))); continue; }
+        if let Some(t) = &rec.tls { if !t.handshake_done { v.push(Violation::new("no_answer", "tls_handshake_failed", format!("TLS handshake failed: {:?}", t.error))); continue; } }
+        for r in c.requests() {
+            let (rl, st) = resp_of(r.id);
+            judge(r.id, r.body.len as u64, rl, st, h2_client_obs(rec, r.id), &c.name, &mut v);
+        }
+    }
+    if let BackendRecords::H1(recs) = &o.backends[0] { for r in recs { if let Some(e) = &r.parse_error { v.push(Violation::new("backend_stream_not_strict", format!("parse_error|{}", plan_trigger(p)), format!("backend conn {}: {e}", r.idx))); } } }
+    v
+}
+
+/// The ledgers kept by the H2 peers.
+pub fn ledger_oracle(p: &MuxPlan, o: &MuxOutcome) -> Vec<Violation> {
+    let mut v = Vec::new();
+    let trig = plan_trigger(p);
+    let mut take = |who: &str, rec: &H2ConnRecord, v: &mut Vec<Violation>| {
+        for lv in &rec.violations {
+            if lv.kind.ends_with("_pre_ack") { continue; }
+            v.push(Violation::new(&lv.kind, format!("{who}|{trig}"), format!("{who} connection {}: stream {}: {}", rec.idx, lv.stream, lv.detail)));
+        }
+        if rec.counters.max_send_blocked_ns > 10 * SEC { v.push(Violation::new("transfer_starved", format!("{who}_send_window|{trig}"), format!("{who}: unable to send DATA for {} ms because sozu did not replenish its windows", rec.counters.max_send_blocked_ns / MS))); }
+    };
+    for rec in &o.h2_clients { take("client", rec, &mut v); }
+    if let BackendRecords::H2(recs) = &o.backends[0] { for rec in recs { take("backend", rec, &mut v); } }
+    v
+}
+
+pub fn summarize(p: &MuxPlan) -> String {
+    let mut s = format!("{} buf={} ", p.family, p.knobs.buffer_size);
+    for c in &p.h2_clients {
+        s += &format!("[h2 client settings={:?} changes={} wu={:?}/{:?} max_concurrent={}:", c.conn.settings.params(), c.conn.changes.len(), c.conn.wu.stream, c.conn.wu.conn, c.max_concurrent);
+        for r in c.requests() { s += &format!(" #{}:{}B", r.id, r.body.len); }
+        s += "] ";
+    }
+    for c in &p.h1_clients { s += &format!("[h1 client {} reqs] ", c.requests.len()); }
+    match &p.clusters[0].backend {
+        MuxBackend::H2(b) => s += &format!("[h2 backend settings={:?} changes={} wu={:?}/{:?} resp={:?}]", b.conn.settings.params(), b.conn.changes.len(), b.conn.wu.stream, b.conn.wu.conn, b.responses.iter().map(|(k, r)| (*k, r.body.len)).collect::<Vec<_>>()),
+        MuxBackend::H1(b) => s += &format!("[h1 backend resp={:?}]", b.responses.iter().map(|(k, r)| (*k, r.body.len())).collect::<Vec<_>>()),
+    }
+    s
+}
+
+pub fn shrink_mux(p: &MuxPlan) -> Vec<MuxPlan> {
+    let mut out = Vec::new();
+    for i in 0..p.h2_clients.len() {
+        let c = &p.h2_clients[i];
+        if c.script.len() > 1 { for j in 0..c.script.len() { let mut q = p.clone(); q.h2_clients[i].script.remove(j); out.push(q); } }
+        if !c.pace.is_greedy() { let mut q = p.clone(); q.h2_clients[i].pace = Pace::greedy(); out.push(q); }
+        if c.conn != H2ConnPlan::default() {
+            let mut q = p.clone(); q.h2_clients[i].conn.changes.clear(); if q.h2_clients[i].conn != c.conn { out.push(q); }
+            let mut q = p.clone(); q.h2_clients[i].conn.hpack = HpackStyle::default(); if q.h2_clients[i].conn != c.conn { out.push(q); }
+            let mut q = p.clone(); q.h2_clients[i].conn.wu = WuPolicy::eager(); if q.h2_clients[i].conn != c.conn { out.push(q); }
+            let mut q = p.clone(); q.h2_clients[i].conn.settings = SettingsSpec { enable_push: Some(0), ..Default::default() }; if q.h2_clients[i].conn != c.conn { out.push(q); }
+        }
+        for j in 0..c.script.len() {
+            if let ClientOp::Req(r) = &c.script[j] {
+                if r.body.len > 1 { let mut q = p.clone(); if let ClientOp::Req(r2) = &mut q.h2_clients[i].script[j] { r2.body = BodyPlan::of(r.body.len / 2); } out.push(q); }
+                if r.body.len > 0 { let mut q = p.clone(); if let ClientOp::Req(r2) = &mut q.h2_clients[i].script[j] { r2.body = BodyPlan::none(); r2.method = "GET".into(); } out.push(q); }
+                if !r.cont_split.is_empty() || r.headers_pad.is_some() || !r.headers.is_empty() { let mut q = p.clone(); if let ClientOp::Req(r2) = &mut q.h2_clients[i].script[j] { r2.cont_split.clear(); r2.headers_pad = None; r2.headers.clear(); } out.push(q); }
+            }
+        }
+    }
+    for i in 0..p.h1_clients.len() {
+        if p.h1_clients[i].requests.len() > 1 { for j in 0..p.h1_clients[i].requests.len() { let mut q = p.clone(); q.h1_clients[i].requests.remove(j); out.push(q); } }
+        if !p.h1_clients[i].pace.is_greedy() { let mut q = p.clone(); q.h1_clients[i].pace = Pace::greedy(); out.push(q); }
+    }
+    match &p.clusters[0].backend {
+        MuxBackend::H2(b) => {
+            if !b.pace.is_greedy() { let mut q = p.clone(); if let MuxBackend::H2(b2) = &mut q.clusters[0].backend { b2.pace = Pace::greedy(); } out.push(q); }
+            if b.conn != H2ConnPlan::default() {
+                let mut q = p.clone(); if let MuxBackend::H2(b2) = &mut q.clusters[0].backend { b2.conn.changes.clear(); } out.push(q);
+                let mut q = p.clone(); if let MuxBackend::H2(b2) = &mut q.clusters[0].backend { b2.conn.wu = WuPolicy::eager(); } out.push(q);
+                let mut q = p.clone(); if let MuxBackend::H2(b2) = &mut q.clusters[0].backend { b2.conn.settings = SettingsSpec::default(); } out.push(q);
+                let mut q = p.clone(); if let MuxBackend::H2(b2) = &mut q.clusters[0].backend { b2.conn.hpack = HpackStyle::default(); } out.push(q);
+            }
+            for (id, r) in &b.responses {
+                if r.body.len > 1 { let mut q = p.clone(); if let MuxBackend::H2(b2) = &mut q.clusters[0].backend { b2.responses.get_mut(id).unwrap().body = BodyPlan::of(r.body.len / 2); } out.push(q); }
+            }
+        }
+        MuxBackend::H1(b) => {
+            if !b.pace.is_greedy() { let mut q = p.clone(); if let MuxBackend::H1(b2) = &mut q.clusters[0].backend { b2.pace = Pace::greedy(); } out.push(q); }
+            for (id, r) in &b.responses {
+                let n = r.body.len();
+                if n > 1 { let mut q = p.clone(); if let MuxBackend::H1(b2) = &mut q.clusters[0].backend { b2.responses.get_mut(id).unwrap().body = BodySpec::Cl(n / 2); } out.push(q); }
+            }
+        }
+    }
+    let mut q = p.clone();
+    q.sched.ev_truncate_pm = 0; q.sched.ev_permute_pm = 0; q.sched.preempt_pm = 0; q.sched.short_write_pm = 0; q.sched.eagain_pm = 0; q.sndbufs = None;
+    if serde_json::to_string(&q).unwrap() != serde_json::to_string(p).unwrap() { out.push(q); }
+    if p.knobs.buffer_size != 16393 { let mut q = p.clone(); q.knobs.buffer_size = 16393; out.push(q); }
+    out
+}
+
+pub fn debug_mux(p: &MuxPlan) -> String {
+    let o = run_mux(p, true);
+    let mut s = String::new();
+    for l in &o.log { s += l; s.push('\n'); }
+    s += &format!("{}\n", summarize(p));
+    for rec in &o.h2_clients { s += &format!("H2 CLIENT: {}\n", summarize_record(rec)); }
+    for (i, c) in o.h1_clients.iter().enumerate() { s += &format!("H1 CLIENT {i}: {:?} responses={:?}\n", c.rec, c.responses.iter().map(|m| (m.start.clone(), m.body_len, m.complete)).collect::<Vec<_>>()); }
+    match &o.backends[0] {
+        BackendRecords::H2(recs) => for r in recs { s += &format!("H2 BACKEND conn {}: {}\n", r.idx, summarize_record(r)); },
+        BackendRecords::H1(recs) => for r in recs { s += &format!("H1 BACKEND conn {}: eof={} err={:?} requests={:?} parse_error={:?}\n", r.idx, r.eof, r.io_err, r.requests.iter().map(|m| (m.start.clone(), m.body_len, m.complete)).collect::<Vec<_>>(), r.parse_error); },
+    }
+    s += &format!("panicked={:?} aborted={:?} boot={:?} config_failures={:?}\n", o.panicked, o.aborted, o.boot_error, o.config_failures);
+    s
+}
+
+pub fn mux_probes(o: &MuxOutcome, rep: &mut RunReport) {
+    let mut add = |k: &str, n: u64| { *rep.probes.entry(k.to_string()).or_insert(0) += n; };
+    let mut recs: Vec<&H2ConnRecord> = o.h2_clients.iter().collect();
+    if let BackendRecords::H2(r) = &o.backends[0] { recs.extend(r.iter()); }
+    for r in recs {
+        add("h2_conn_window_zero_hits", r.counters.conn_window_zero_hits);
+        add("h2_stream_window_zero_hits", r.counters.stream_window_zero_hits);
+        add("h2_negative_window_settings_applied", r.counters.negative_window_settings_applied);
+        add("h2_send_blocked_by_sozu_window", r.counters.send_blocked_conn + r.counters.send_blocked_stream);
+        add("h2_window_updates_sent", r.counters.window_updates_sent);
+        add("h2_streams_opened_by_sozu", r.counters.streams_opened_by_peer);
+        add("h2_goaways_from_sozu", r.goaways.len() as u64);
+        add("h2_rst_from_sozu", r.rst_recv.len() as u64);
+        if r.counters.max_frame_seen > 16384 { add("h2_frames_over_16384_seen", 1); }
+    }
+}
+
 impl Property for C14 {
     fn id(&self) -> &'static str { "C14" }
-    fn runs(&self, _tier: Tier) -> u64 { 0 }
-    fn gen_plan(&self, _seed: u64, _tier: Tier) -> Value { Value::Null }
-    fn run_plan(&self, _plan: &Value) -> RunReport { RunReport { harness_error: Some("not implemented".into()), ..Default::default() } }
-    fn descr(&self) -> Descr { Descr { level: "exploration", rule: "", assumptions: vec![], real: vec![], stub: vec![], not_covered: vec![] } }
+    fn runs(&self, tier: Tier) -> u64 { match tier { Tier::Quick => 2500, Tier::Thorough => 60000 } }
+    fn gen_plan(&self, seed: u64, tier: Tier) -> Value { serde_json::to_value(gen_mux(seed, tier, Focus::Limits, "c14")).unwrap() }
+    fn run_plan(&self, plan: &Value) -> RunReport {
+        let p: MuxPlan = match serde_json::from_value(plan.clone()) { Ok(p) => p, Err(e) => return RunReport { harness_error: Some(format!("bad plan: {e}")), ..Default::default() } };
+        let o = run_mux(&p, false);
+        let mut violations = ledger_oracle(&p, &o);
+        violations.extend(body_oracle(&p, &o));
+        let mut rep = RunReport { seed: p.seed, family: p.family.clone(), violations, trace_hash: o.trace_hash, stats: o.stats.clone(), summary: summarize(&p), ..Default::default() };
+        mux_probes(&o, &mut rep);
+        let done = o.h2_clients.iter().map(|r| r.streams.values().filter(|s| s.recv_end).count()).sum::<usize>() + o.h1_clients.iter().map(|c| c.responses.len()).sum::<usize>();
+        rep.nontrivial = done > 0;
+        rep.probes.insert("responses_completed".into(), done as u64);
+        if let Some(e) = o.boot_error { rep.harness_error = Some(format!("worker boot failed: {e}")); }
+        if !o.config_failures.is_empty() { rep.harness_error = Some(format!("configuration refused: {:?}", o.config_failures)); }
+        rep
+    }
+    fn shrink(&self, plan: &Value) -> Vec<Value> {
+        let Ok(p) = serde_json::from_value::<MuxPlan>(plan.clone()) else { return vec![] };
+        shrink_mux(&p).into_iter().map(|q| serde_json::to_value(q).unwrap()).collect()
+    }
+    fn debug_plan(&self, plan: &Value) -> String { debug_mux(&serde_json::from_value(plan.clone()).unwrap()) }
+    fn descr(&self) -> Descr {
+        Descr {
+            level: "exploration",
+            rule: "seeded plans over three protocol pairs (H2-over-TLS client / H1 backend, H1 client / h2c backend, H2 / h2c) with peer SETTINGS drawn from the legal ranges (initial window 1024..2^31-1, max frame 16384..2^24-1, max concurrent streams 1..100, header table 0..64k), mid-connection SETTINGS changes that shrink windows below in-flight data, WINDOW_UPDATE schedules (eager, drip, threshold, only-when-exhausted, late; stream vs connection independently; always eventually generous), HPACK styles, 1..5 concurrent streams, boundary-biased body sizes; the H2 peers are byte-accounting peers whose own ledgers (windows as granted, frame size, concurrent streams, stream ids, HPACK table) are the oracle, plus body integrity and a virtual-time liveness bound; non-trivial = at least one response completed; distinct = trace hashes",
+            assumptions: vec!["AF_UNIX stands in for TCP", "release semantics", "WINDOW_UPDATE increments are kept above ~1/60 of the body (sozu documents a WINDOW_UPDATE flood detector)"],
+            real: vec!["sozu_lib worker incl. mux H2 (h2.rs, converter, serializer, pkawa), rustls + ring (TLS termination)", "loona-hpack (inside sozu)"],
+            stub: vec!["IP network", "clock", "entropy", "H2 client (own codec, own HPACK encoder, rustls client)", "h2c backend (own codec)", "master"],
+            not_covered: vec!["stream-id space exhaustion (2^30 requests)", "initial window 0 and single-byte WINDOW_UPDATE drips (collide with the documented flood detector)"],
+        }
+    }
 }
